@@ -210,7 +210,7 @@ def _frame(ex, spec, s, where):
     '''everything the contract does not list under `modifies` is unchanged'''
     mods = set(spec.get('modifies', []))
     for name, oldv in s.old.items():
-        if name in mods or name == 'clock!':
+        if name in mods or name == 'clock!' or name in s.rebound:
             continue
         if name in spec.get('ghost', {}) and name in mods:
             continue
